@@ -3,6 +3,7 @@ import Ufw.Tie.Misc
 import Ufw.Tie.EndpFns.Common
 import Ufw.Tie.EndpFns.SinkAdapt
 import Ufw.Tie.EndpFns.SourceAdapt
+import Ufw.Tie.EndpFns.SinkPutChunk
 #print axioms Ufw.Props.C17.get_chunk_exact
 #print axioms Ufw.Props.C17.get_chunk_refuses
 #print axioms Ufw.Props.C17.get_atmost_le
@@ -42,3 +43,14 @@ import Ufw.Tie.EndpFns.SourceAdapt
 #print axioms Ufw.Tie.EndpFns.retry_iff'
 #print axioms Ufw.Tie.EndpFns.source_adapt_loop
 #print axioms Ufw.Tie.EndpFns.gen_source_adapt
+#print axioms Ufw.Tie.EndpFns.snk_chunk_call
+#print axioms Ufw.Tie.EndpFns.snk_call_kind
+#print axioms Ufw.Tie.EndpFns.snk_call_le
+#print axioms Ufw.Tie.EndpFns.sink_adapt_facts
+#print axioms Ufw.Tie.EndpFns.gen_once_sink_put_chunk
+#print axioms Ufw.Tie.EndpFns.once_facts
+#print axioms Ufw.Tie.EndpFns.sx_toInt
+#print axioms Ufw.Tie.EndpFns.sx_inj
+#print axioms Ufw.Tie.EndpFns.ofNat_toInt
+#print axioms Ufw.Tie.EndpFns.put_loop
+#print axioms Ufw.Tie.EndpFns.gen_sink_put_chunk
